@@ -430,6 +430,13 @@ func (req *Request) BuildResponse(ctx context.Context) (*Response, error) {
 		return res, err
 	}
 
+	// the description of tables and columns does not depend on the backends, every node has all of it
+	if req.Table == TableTables || req.Table == TableColumns {
+		res, _, err := NewResponse(ctx, req, nil)
+
+		return res, err
+	}
+
 	// Determine if request for this node only (if backends specified)
 	allBackendsRequested := len(req.Backends) == 0
 	isForOurBackends := false // request for our own backends only
